@@ -7,9 +7,17 @@ using namespace stim;
 SVH_CMD(explain) {
     bool reduce = req.iarg(0) != 0;
     bool use_filter = req.iarg(1) != 0;
-    Circuit c(req.payload());
+    // payload lines starting with "@D " are the text of a caller-supplied filter model (use_filter = 2)
+    std::string ctext, ftext;
+    for (const auto &l : req.lines) {
+        if (l.rfind("@D ", 0) == 0) ftext += l.substr(3) + "\n";
+        else ctext += l + "\n";
+    }
+    Circuit c(ctext);
     DetectorErrorModel filter;
-    if (use_filter) {
+    if (req.iarg(1) == 2) {
+        filter = DetectorErrorModel(ftext);
+    } else if (use_filter) {
         filter = ErrorAnalyzer::circuit_to_detector_error_model(c, false, true, false, 1.0, false, false);
     }
     auto res = ErrorMatcher::explain_errors_from_circuit(c, use_filter ? &filter : nullptr, reduce);
